@@ -381,7 +381,7 @@ struct BatchOpts {
   u64 seed = 1;
   long runs = 100, workers = 8, first = 0, batch = 1;
   double max_s = 1e9;
-  bool det = false;
+  bool det = false, need_fault = false;
   int shrink_budget = 300;
 };
 
@@ -426,9 +426,10 @@ static int worker_main(Harness& hs, const BatchOpts& o, long w) {
     ++runs; ops += rr.ops_done; faults += rr.faults_fired;
     for (auto& s : rr.stats) stats[s.first] += s.second;
     states.insert(rr.states.begin(), rr.states.end());
-    if (rr.nontrivial) nontrivial.insert(plan.hash());
+    bool nt = rr.nontrivial && (!o.need_fault || rr.faults_fired > 0);
+    if (nt) nontrivial.insert(plan.hash());
     if (o.det) fprintf(res, "DH\t%ld\t%llx\n", i, (unsigned long long) rr.h);
-    if (samples.size() < 3 && rr.nontrivial && (i % 7 == 0 || i >= o.first + o.runs - 3 * o.workers)) samples.push_back(plan.text());
+    if (samples.size() < 3 && nt && (i % 7 == 0 || i >= o.first + o.runs - 3 * o.workers)) samples.push_back(plan.text());
     for (auto& v : rr.viols) {
       if (v.prop != o.prop) { ++other; stats["other_property." + v.prop + "." + v.monitor]++; continue; }
       std::string cls = v.cls();
@@ -493,6 +494,7 @@ static int kit_main(int argc, char** argv, Harness& hs) {
     o.workers = atol(argval("--workers", "8").c_str());
     o.max_s = atof(argval("--max-s", "1e9").c_str());
     o.det = argval("--det", "0") == "1";
+    o.need_fault = argval("--need-fault", "0") == "1";
     o.batch = std::max(1L, atol(argval("--batch", "1").c_str()));
     o.shrink_budget = atoi(argval("--shrink-budget", "300").c_str());
     std::string mk = "mkdir -p " + o.out; if (system(mk.c_str()) != 0) return 2;
